@@ -83,6 +83,7 @@ struct Global {
     MVec<u32> plan_in; size_t plan_pos;
     MVec<u32> plan_out; MVec<u32> plan_bound;
     bool faults_on;
+    bool plain_points;                // this run also has scheduling points before plain accesses to memory another thread touched
     int strategy; double p_switch; int pct_depth; u64 pct_points[4]; u32 rr_quantum; u32 prio_low;
     bool fair;
     u64 fault_fired[F_NKINDS];
@@ -148,6 +149,7 @@ void heap_check_access(SimThread *t, uintptr_t a, unsigned sz, bool wr, uintptr_
 unsigned long heap_live_blocks(); unsigned long heap_live_bytes(); unsigned long heap_total_allocs();
 void heap_report_leaks_and_fail();
 bool stack_in_exclusion(SimThread *t);
+bool hb_shared_granule(SimThread *t, uintptr_t a);
 
 // sync.cpp
 void sync_reset();
